@@ -75,6 +75,18 @@ def catalog():
                   sub("f0"), sub("f1"), sub("f2", [["raise", "E0"]]), ["sleep", 0.01], ["run", "ex", 0]],
         "threads": [[["sleep", 0.25], ["cancel", "f0"], ["cancel", "f0"]], [["sleep", 0.25], ["run", "ex", 2]], [["sleep", 2.0], ["run", "ex", 1]]],
         "settle": 3.0, "final": [["state", "f0"], ["state", "f1"], ["state", "f2"]]}}
+    # a raising poll call fails exactly what it was SHOWN: delegates completing while the failing call runs (it takes time),
+    # or on the very instant it starts, were not shown to it and must be served by the next call
+    out["P7/register-during-raising-call"] = {"prog": {
+        "setup": [stack(man, 1.0, {"f0.fn": {"after": None}, "f1.fn": {"after": 1}, "f2.fn": {"after": 1}}, calls=[{}, {"vsleep": 0.5, "raise": "E2"}, {}]),
+                  sub("f0"), sub("f1"), sub("f2"), ["sleep", 0.01], ["run", "ex", 0]],
+        "threads": [[["sleep", 1.25], ["run", "ex", 1]], [["sleep", 1.5], ["run", "ex", 2]]],
+        "settle": 3.0, "final": [["state", "f0"], ["state", "f1"], ["state", "f2"]]}}
+    out["P7b/register-at-raising-call"] = {"prog": {
+        "setup": [stack(man, 1.0, {"f0.fn": {"after": None}, "f1.fn": {"after": 1}}, calls=[{}, {"raise": "E2"}, {}]),
+                  sub("f0"), sub("f1"), ["sleep", 0.01], ["run", "ex", 0]],
+        "threads": [[["sleep", 1.0], ["run", "ex", 1]], [["sleep", 1.0], ["notify", "ex"]]],
+        "settle": 3.0, "final": [["state", "f0"], ["state", "f1"]]}}
     return out
 
 
@@ -328,7 +340,8 @@ def case_strategy():
             per["f%d.fn" % i] = draw(st.sampled_from([{"after": 1}, {"after": 2}, {"after": 3}, {"after": None}, {"after": 1, "then": ["exc", "E1"]},
                                                         {"after": 2, "then": ["res2", ["y", i], ["z", i]]}]))
         ncalls = draw(st.integers(1, 6))
-        calls = [draw(st.sampled_from([{}, {}, {}, {"raise": "E2"}, {"ret": 0.25}, {"ret": "bogus"}, {"vsleep": 0.25}, {"op": ["notify", "ex"]}])) for _ in range(ncalls)] + [{}]
+        calls = [draw(st.sampled_from([{}, {}, {}, {"raise": "E2"}, {"ret": 0.25}, {"ret": "bogus"}, {"vsleep": 0.25}, {"op": ["notify", "ex"]},
+                                       {"vsleep": 0.25, "raise": "E2"}, {"vsleep": 0.5, "raise": "E2"}])) for _ in range(ncalls)] + [{}]
         cancel = draw(st.one_of(st.none(), st.lists(st.sampled_from([["ret", True], ["ret", False], ["raise", "E3"]]), min_size=1, max_size=3)))
         nthreads = draw(st.integers(1, 2))
         threads = [[] for _ in range(nthreads)]
